@@ -797,6 +797,17 @@ theorem insertReservedAt_split (v : Veh) (acts : List RAct) (shift : TW) (t : XT
   simp only [splitOf] at h1 ⊢
   omega
 
+/-- the usual case spelled out: the break is written into ONE point stop and is not moved - the timing entries grow by the
+    break minus what of it was taken while waiting (exactly what the core prolongs the service by) -/
+theorem insertReservedAt_split_one_point (v : Veh) (acts : List RAct) (shift : TW) (t : XTour) (rs : Int) (rtw : TW) (dur : Int)
+    (h : twIntersectsX shift rtw = true) (x : XStop × Nat) (l : Nat)
+    (hone : (reservedStops t.stops rs rtw).zipIdx.filter (fun x => twIntersectsX (x.1.arrival, x.1.departure) rtw) = [x])
+    (hpoint : x.1.loc = some l) (hmoved : reservedMoved t.stops rs rtw = none) (hdur : dur ≠ 0) :
+    splitOf (insertReservedAt v acts shift t rs rtw dur).stat = splitOf t.stat + dur - waitingOverlap acts rtw dur := by
+  have := (insertReservedAt_split v acts shift t rs rtw dur h).1
+  rw [this, hone, hmoved]
+  simp [breakAdj, hpoint, hdur]
+
 theorem twOverlap_nonneg (a b : TW) (o : TW) (ha : a.1 ≤ a.2) (hb : b.1 ≤ b.2) (h : twOverlap a b = some o) : 0 ≤ o.2 - o.1 := by
   unfold twOverlap at h
   split at h
